@@ -213,7 +213,12 @@ def run(ctx: Ctx, thorough=None):
     for name, k in (("c64", k64), ("c32", k32)):
         got = " ".join(run_driver([f"cphot_consts {cc.CSET[name]}"])[0])
         ctx.case(("consts", name))
-        if got != cc.consts_line(k):
+        try:
+            live = cc.consts_line(k)
+        except InfraError as ex:   # the live instance no longer has the arrays the model is written for
+            ctx.disagree("C06.constants-do-not-fit-the-model", {"set": name, "error": str(ex)[:200]})
+            continue
+        if got != live:
             ctx.disagree("C06.constants-roundtrip", {"set": name})
     # pinned: the numbers the property names
     pins = {"dL": (float(k32.dL), float(np.float32(0.1))), "zMaxZ": (float(k32.zMaxZ), 65.0), "orbit": (float(k32.zmax), 525.0)}
